@@ -14,6 +14,10 @@ import Rpki.Proofs.CrlDerLemmas
 import Rpki.Proofs.CmsDerLemmas
 import Rpki.Proofs.SkipLemmas
 import Rpki.Props.C05
+import Rpki.Proofs.RtaDerLemmas
+import Rpki.Proofs.TalLemmas
+import Rpki.Gen.BerEq
+import Rpki.Proofs.BerMono
 namespace Rpki.Props.C04
 set_option autoImplicit false
 open Rpki.Der
@@ -174,5 +178,89 @@ theorem skip_machine_bounded (b rest : Bytes) (h : CertDer.skipOne b = some rest
 skip machine is a refusal of the input (so a disagreement with the library cannot hide behind the counter). -/
 theorem skip_machine_fuel_never_binds (b : Bytes) (k : Nat) :
     CertDer.skipLoop (b.length + 1 + k) b [] = CertDer.skipOne b := CertDer.skipOne_fuel b k
+
+/-! ### the remaining entry points: RTA, CSR, TAL, bare keys
+
+`Model/RtaDer.lean`, `Model/CsrDer.lean` and `Model/Tal.lean` are total functions from octets to a value or a
+refusal, compared with the library on every run (`rtad`, `csrd`, `tald`, `keyd`).  What they accept satisfies
+what the accessors of the decoded values rely on. -/
+
+/-- **`Rta::decode`**: the attestation's three resource sets are canonical chains and every embedded CRL went
+through the counting pass (so `contains` / iteration on it cannot fail). -/
+theorem rta_octets_accessors_cannot_fail (b : Bytes) (hb : AllBytes b) (r : RtaDer.RtaD) (h : RtaDer.decodeRta b = some r) :
+    Chain.Canon IpDer.maxAddr r.att.v4 ∧ Chain.Canon IpDer.maxAddr r.att.v6 ∧ Chain.Canon AsDer.maxAs r.att.asn ∧
+    ∀ d ∈ r.crls, ∃ n, Crl.capture d.revoked = some n :=
+  RtaDer.decodeRta_spec b hb r h
+
+/-- **`RpkiCaCsr::decode` / `BgpsecCsr::decode`**: the accessors that unwrap (`basic_ca`, `key_usage`, the SIA
+URIs) have their values; a router request's extended key usage names the router purpose. -/
+theorem csr_octets_profile (router : Bool) (b : Bytes) (d : CsrDer.CsrD) (h : CsrDer.decodeCsr router b = some d) :
+    (router = false → d.basicCa.isSome ∧ d.keyUsage.isSome ∧ d.sia.isSome) ∧ (router = true → d.eku ≠ some false) :=
+  CsrDer.decodeCsr_profile router b d h
+
+/-- **`Tal::read_named`**: every URI of an accepted locator is a valid URI of the scheme it is reported under, the
+key is one `PublicKey::decode` accepts, and `prefer_https` only reorders. -/
+theorem tal_octets_spec (b : Bytes) (uris : List Tal.TalUri) (alg : CertDer.KeyAlg) (unused : Nat) (bits : Bytes)
+    (h : Tal.decodeTal b = some (uris, alg, unused, bits)) :
+    (∀ u ∈ uris, Tal.UriValid u) ∧ (∃ key, Tal.decodeKey key = some (alg, unused, bits)) ∧
+    (Tal.preferHttps uris).Perm uris :=
+  ⟨(Tal.decodeTal_spec b uris alg unused bits h).1, (Tal.decodeTal_spec b uris alg unused bits h).2,
+   Tal.preferHttps_perm uris⟩
+
+/-! ### relaxed mode (`strict = false`: bcder's BER mode)
+
+`Gen/BerModel.lean` is the octet-level decoder model with the decoding mode as a parameter; it is written from the
+text of the DER model by `tools/gen_ber_model.py` over the mode-dependent readers of `Model/Ber.lean` (lengths,
+indefinite form, BOOLEAN, BIT STRING, constructed strings, the skip machine) and compared with the library's
+`strict = false` entry points on every run (`cmsdr`, `smsgdr`). -/
+
+/-- **The strict decoders are the `ber = false` instance of the mode-parametrized model** — so everything proved
+about the DER model is a statement about that instance, and the relaxed decoders run the same text. -/
+theorem strict_is_the_der_instance :
+    CmsDer.decodeSigObjM false = CmsDer.decodeSigObj ∧ CmsDer.decodeTypedM false = CmsDer.decodeTyped ∧
+    SigMsgDer.decodeSigMsgM false = SigMsgDer.decodeSigMsg ∧ CertDer.decodeCertM false = CertDer.decodeCert ∧
+    SigMsgDer.decodeIdCertM false = SigMsgDer.decodeIdCert ∧ SigObj.parseAttrsM false = SigObj.parseAttrs ∧
+    SigMsgDer.msgRevokedSerialsM false = SigMsgDer.msgRevokedSerials :=
+  ⟨CmsDer.decodeSigObjM_false, CmsDer.decodeTypedM_false, SigMsgDer.decodeSigMsgM_false, CertDer.decodeCertM_false,
+   SigMsgDer.decodeIdCertM_false, SigObj.parseAttrsM_false, SigMsgDer.msgRevokedSerialsM_false⟩
+
+/-- the mode-dependent readers at `ber = false` are the DER readers -/
+theorem readers_at_der :
+    Der.readLenM false = Der.readLen ∧ Der.readTlvM false = Der.readTlv ∧ Der.takeOptConsM false = Der.takeOptCons ∧
+    Der.takeOptPrimM false = Der.takeOptPrim ∧ CertDer.skipLoopM false = CertDer.skipLoop ∧
+    CertDer.takeOptBoolM false = CertDer.takeOptBool ∧ Manifest.bitStringTakeM false = Manifest.bitStringTake :=
+  ⟨readLenM_false, readTlvM_false, takeOptConsM_false, takeOptPrimM_false, skipLoopM_false, takeOptBoolM_false,
+   bitStringTakeM_false⟩
+
+/-- **`SignedAttrs::encode_verify` after a relaxed-mode decode.** In either mode the attribute parser refuses more
+than 65535 octets, so the verification input exists (`panic!("overly long signed attrs")` is unreachable). -/
+theorem relaxed_encode_verify_cannot_panic (ber strict : Bool) (attrs ct md : Bytes) (st : X509.Civil)
+    (h : SigObj.parseAttrsM ber strict attrs = some (ct, md, st)) :
+    ∃ msg, SigObj.encodeVerify attrs = some msg := by
+  have hl : attrs.length ≤ 0xFFFF := by
+    unfold SigObj.parseAttrsM at h
+    split at h
+    · cases h
+    · split at h
+      · cases h
+      · omega
+  exact ⟨_, C02.encodeVerify_is_der attrs (by omega)⟩
+
+/-- **The relaxed readers only admit more**: whatever a DER reader reads, the BER reader reads as the same value
+(lengths, whole values, constructed and primitive values present or absent, the skip machine, BOOLEAN, BIT STRING).
+This is the reader level of "every strictly accepted object is accepted in relaxed mode with the same fields";
+for whole objects that statement is checked by the correspondence (every seed object through both entry points). -/
+theorem der_values_are_read_in_ber :
+    (∀ b x, Der.readLen b = some x → Der.readLenM true b = some x) ∧
+    (∀ b x, Der.readTlv b = some x → Der.readTlvM true b = some x) ∧
+    (∀ tag b c rest, Der.takeOptCons tag b = .ok c rest → Der.takeOptConsM true tag b = .ok c rest) ∧
+    (∀ tag b, Der.takeOptCons tag b = .absent → Der.takeOptConsM true tag b = .absent) ∧
+    (∀ tag b c rest, Der.takeOptPrim tag b = .ok c rest → Der.takeOptPrimM true tag b = .ok c rest) ∧
+    (∀ tag b, Der.takeOptPrim tag b = .absent → Der.takeOptPrimM true tag b = .absent) ∧
+    (∀ b rest, CertDer.skipOne b = some rest → CertDer.skipOneM true b = some rest) ∧
+    (∀ b x rest, CertDer.takeOptBool b = .ok x rest → CertDer.takeOptBoolM true b = .ok x rest) ∧
+    (∀ c x, Manifest.bitStringTake c = some x → Manifest.bitStringTakeM true c = some x) :=
+  ⟨readLen_mono, readTlv_mono, takeOptCons_mono, takeOptCons_absent_mono, takeOptPrim_mono, takeOptPrim_absent_mono,
+   skipOne_mono, takeOptBool_mono, bitStringTake_mono⟩
 
 end Rpki.Props.C04
